@@ -1,9 +1,7 @@
-\* generated by lib/slices.py from pair slice 'pair_v311_manual' - do not edit
-SPECIFICATION Spec
-VIEW view
+\* generated by lib/slices.py from pair liveness slice 'pair_live_v311_manual' - do not edit
+SPECIFICATION FairSpec
 CHECK_DEADLOCK FALSE
-PROPERTY NoViolation
-ACTION_CONSTRAINT PrintEdge
+PROPERTY Terminates
 CONSTANTS
  Ver = "v311"
  AutoPub = FALSE
@@ -21,4 +19,4 @@ CONSTANTS
  AliasModes = {"none"}
  Chunks = FALSE
  EndpointProps = {"C05", "C06", "C07", "C08", "C12", "C13", "C14", "C15", "C19"}
- Record = TRUE
+ Record = FALSE
